@@ -42,7 +42,7 @@ static std::string hist_text(const History& h) { std::string s; for (auto& st : 
 static History hist_parse(const std::string& s) { History h(1); for (char ch : s) { if (ch == '|') h.push_back({}); else h.back().push_back(ch - '0'); } if (s.empty()) h.clear(); return h; }
 static std::string hist_json(const History& h) { std::string s = "["; for (size_t i = 0; i < h.size(); i++) { if (i) s += ","; s += "\""; for (int e : h[i]) s += (e == 0 ? "-" : e == 1 ? "D" : "V"); s += "\""; } return s + "]"; }
 
-struct RunOut { std::string err; std::vector<size_t> pop_after_step; long divisions = 0, removals = 0; bool threw = false; std::string what; };
+struct RunOut { std::string final_key; std::string err; std::vector<size_t> pop_after_step; long divisions = 0, removals = 0; bool threw = false; std::string what; };
 
 static RunOut run_history(const Setup& su, const History& h, long* phases = nullptr) {
     RunOut out; std::vector<sw::CellSpec> cs;
@@ -61,7 +61,7 @@ static RunOut run_history(const Setup& su, const History& h, long* phases = null
                 else c.division_volume_ = std::numeric_limits<double>::infinity();
                 if (h[step][i] == VANISH && !c.is_static() /* static cells are not subject to internal forces: their volume is never re-evaluated */) { double v = c.compute_volume(); c.cell_type_ = std::make_shared<cell_type_parameters>(*c.cell_type_); c.cell_type_->min_vol_ = 0.6 * v; sw::scale_cell(c, 0.8); expect_gone.insert(c.get_id()); } }
             size_t before = L.size();
-            for (int it = 0; it < 5; it++) { W.s->run_iteration(); std::string e = check_population(W.s.get(), "after_iteration"); if (!e.empty()) { out.err = e; break; } }
+            for (int it = 0; it < 5 && !W.cells().empty() /* solver::run stops on an empty population */; it++) { W.s->run_iteration(); std::string e = check_population(W.s.get(), "after_iteration"); if (!e.empty()) { out.err = e; break; } }
             if (!out.err.empty()) break;
             // removed ids never reappear; removed cells are exactly those below their minimum volume (C04 checks the law; here: identity)
             for (auto& c : W.cells()) if (expect_gone.count(c->get_id())) { out.err = "cell-below-minimum-volume-still-in-population: id " + std::to_string(c->get_id()); break; }
@@ -69,6 +69,7 @@ static RunOut run_history(const Setup& su, const History& h, long* phases = null
             for (auto& c : W.cells()) c->division_volume_ = std::numeric_limits<double>::infinity();
         }
         if (phases) *phases += T.phases;
+        out.final_key = sw::canon_world(*W.s);
         out.divisions = (long)T.ever_seen.size() - su.ncells;
     } catch (harness_abort& e) { out.err = e.msg; }
     catch (std::exception& e) { out.threw = true; out.what = e.what(); }
@@ -88,6 +89,7 @@ static void enumerate(Result& R, const Setup& su, int depth, int max_cells_with_
         size_t k = std::min<size_t>(n, max_cells_with_events); long combos = 1; for (size_t i = 0; i < k; i++) combos *= 3;
         for (long code = 0; code < combos; code++) { std::vector<int> ev(n, NOTHING); long c = code; for (size_t i = 0; i < k; i++) { ev[i] = c % 3; c /= 3; }
             History h2 = h; h2.push_back(ev); long ph = 0; RunOut o = run_history(su, h2, &ph); R["transitions"]++; R["states"]++; R["phase_boundaries_checked"] += ph; R["divisions_executed"] += o.divisions; R["removals_executed"] += o.removals;
+            R.mix(o.final_key + o.err);
             if (!o.err.empty()) { R.violation(clause_of(o.err) + "|setup=" + std::to_string(su.kind), "population of " + std::to_string(su.ncells) + " cells (setup " + std::to_string(su.kind) + "), history " + hist_json(h2) + ": " + o.err, "ncells=" + std::to_string(su.ncells) + "\nkind=" + std::to_string(su.kind) + "\nhist=" + hist_text(h2) + "\n"); continue; }
             if (o.threw) { R["histories_ended_by_exception"]++; R.tables["exceptions"][o.what.substr(0, 60)]++; continue; }
             if ((int)h2.size() < depth) frontier.push_back(h2);
